@@ -30,11 +30,14 @@ def c01():
         plans = [dict(universe=u, variant="core", depth=3, emitidx=False) for u in U] + \
                 [dict(universe=u, variant="extras", depth=10, simulate=1500, emitidx=False) for u in U]
         hs, keys, modes = (0, 1, 2, 3), ("plain", "hostile"), ("compiled", "pure")
-    return me.run("C01", "model_checking",
+    v = me.run("C01", "model_checking",
                   "every transition TLC generates for Manager.tla (universes U1-U3, exhaustive to the stated depth plus -simulate fans) is replayed on a "
                   "fresh real Manager; after each step container contents, definitions, knob state must equal the spec successor. "
                   "non-trivial = transition whose triggered task set is non-empty",
-                  plans, tags=["C01"], keys=keys, modes=modes, hashseeds=hs, queries=False)
+                  plans, tags=["C01"], keys=keys, modes=modes, hashseeds=hs, queries=False, finish=False)
+    from . import mgr_trace
+    mgr_trace.stage(v, "C01", modes=modes)
+    return v.finish()
 
 
 @prop("C02")
@@ -49,11 +52,14 @@ def c02():
                 [dict(universe=u, variant="extras", depth=10, simulate=800, emitidx=False) for u in U]
         hs = tuple(range(32))
         modes = ("compiled", "pure")
-    return me.run("C02", "model_checking",
+    v = me.run("C02", "model_checking",
                   "as C01, observing the ordered list of Task.run calls of each assignment: it must be a permutation of the spec's Triggered set "
                   "(each once, none outside) and a linear extension of the spec's Produces relation; repeated under several PYTHONHASHSEED values. "
                   "non-trivial = transition whose triggered task set is non-empty",
-                  plans, tags=["C02"], modes=modes, hashseeds=hs, queries=False)
+                  plans, tags=["C02"], modes=modes, hashseeds=hs, queries=False, finish=False)
+    from . import mgr_trace
+    mgr_trace.stage(v, "C02", modes=modes)
+    return v.finish()
 
 
 @prop("C03")
@@ -66,12 +72,15 @@ def c03():
         plans = [dict(universe=u, variant="extras", depth=3) for u in ("U1", "U2")] + [dict(universe="U3", variant="extras", depth=3)] + \
                 [dict(universe=u, variant="extras", depth=10, simulate=600) for u in U]
         hs, modes = (0, 1), ("compiled", "pure")
-    return me.run("C03", "model_checking",
+    v = me.run("C03", "model_checking",
                   "replay of every transition incl. unregister / redefinition / register / refresh / cleanup / verify / clone-adoption; after each step the "
                   "supports of rdeps, rtasks, deptasks, tartasks must equal the spec's derived indices, _expr/_tasks/_find_dependant_targets must answer as "
                   "derived, verify() must pass, and a fresh manager registering only the surviving definitions must have identical supports. "
                   "non-trivial = transition whose triggered task set is non-empty",
-                  plans, tags=["C03"], modes=modes, hashseeds=hs, queries=True, loops=("refresh", "cleanup", "verify", "clone"), nloops=1)
+                  plans, tags=["C03"], modes=modes, hashseeds=hs, queries=True, loops=("refresh", "cleanup", "verify", "clone"), nloops=1, finish=False)
+    from . import mgr_trace
+    mgr_trace.stage(v, "C03", modes=modes)
+    return v.finish()
 
 
 @prop("C17")
